@@ -169,8 +169,9 @@ pub fn reference(m: &Model, ind: &EnergyIndicators) -> RefInd {
     }
     r.vol_net = if vol_net_ok { Some(vol_net) } else { None };
     let zone_rows: BTreeMap<String, f64> = {
-        let t = climatedata::total_radiation_in_july_by_orientation(&m.meta.climate);
-        t.iter().map(|(o, v)| (serde_json::to_value(o).unwrap().as_str().unwrap().to_string(), *v as f64)).collect()
+        // own lookup in the embedded monthly table: July = index 6, beam + diffuse
+        let t = climatedata::MONTHLYRADDATA.lock().unwrap();
+        t.iter().filter(|r| r.zone == m.meta.climate).map(|r| (serde_json::to_value(r.orientation).unwrap().as_str().unwrap().to_string(), r.dir[6] as f64 + r.dif[6] as f64)).collect()
     };
     r.c_o = if m.meta.is_new_building { 16.0 } else { 29.0 };
     let mut q_sums = (0.0, 0.0, 0.0, 0.0);
